@@ -261,6 +261,30 @@ Proof.
 Qed.
 Print Assumptions C14_header_set_field_fail.
 
+(* DBusMessage.locked: dbus_message_marshal locks a message that was not locked and must unlock it again on
+   every exit - the message (flag included) is what it was whatever fails; on success the data is header ++ body *)
+Theorem C14_msg_marshal_restores : forall exact F i m ok m' i' d,
+  msg_marshal exact F true i m = (ok, m', i', d) ->
+  m' = m /\ (ok = true -> d = d_bytes (h_data (m_header m)) ++ d_bytes (m_body m)).
+Proof. exact msg_marshal_restores. Qed.
+Print Assumptions C14_msg_marshal_restores.
+
+(* ... and no header edit touches the flag (so every library operation of the model restores it) *)
+Theorem C14_msg_set_field_keeps_lock : forall exact F i m e ok m' i',
+  msg_set_field exact F i m e = Some (ok, m', i') -> m_locked m' = m_locked m /\ m_body m' = m_body m.
+Proof. exact msg_set_field_keeps_lock. Qed.
+Print Assumptions C14_msg_set_field_keeps_lock.
+
+(* seeded defect C14_5: without the restore on the failure exits the message stays locked and the next setter is refused *)
+Theorem C14_msg_marshal_unrestored_refuted :
+  let m := mkM (mkH (mkD (repeat 1%N 16) 24) 0) (mkD (repeat 2%N 4) 12) false in
+  exists m' i' d, msg_marshal true (N.eqb 2) false 0 m = (false, m', i', d) /\ m_locked m' = true /\
+                  msg_set_field true (fun _ => false) 0 m' (HReplace 0 [9]%N 0 1) = Some (false, m', 0%N) /\
+                  (exists i2 d2, msg_marshal true (N.eqb 2) true 0 m = (false, m, i2, d2)) /\
+                  (exists m2 i2, msg_set_field true (fun _ => false) 0 m (HReplace 0 [9]%N 0 1) = Some (true, m2, i2)).
+Proof. exact msg_marshal_unrestored_breaks. Qed.
+Print Assumptions C14_msg_marshal_unrestored_refuted.
+
 (* the two statements above are about this very code: with the overwrite before the fallible insertion in
    _dbus_string_replace_len (seeded defect C14_2), or without correct_header_padding on the failure path
    (finding F14.2, the code before 813204b), they are false *)
